@@ -83,10 +83,13 @@ static void body(void) {
         size_t blk = (entry >= 2 && entry <= 5) ? 128 * 1024 : B;
         if (entry >= 2 && entry <= 5 && !(p.level == 1 || p.level == 3 || p.level == 7)) { vx_obs_u64(53); return; }
         /* block-size class for the parameter-vector entries: the configuration's own (1 KiB), or 8 KiB blocks with and without targetCBlockSize 1340 (sub-blocks) */
-        int cls = (entry == 0 || entry >= 6) ? vx_choose(entry == 0 ? 4 : 3) : 0;      /* class 3: 128 KiB blocks with sub-blocks, second block = 50 KiB of literal-free copies then new text */
+        int cls = (entry == 0 || entry >= 6) ? vx_choose(entry == 0 ? 4 : 3) : 0;
+        if (!vx_thorough && (cls == 1 || cls == 2) && p.strategy != 0) { vx_obs_u64(56); return; }      /* quick tier: the 8 KiB classes with level vectors only */      /* class 3: 128 KiB blocks with sub-blocks, second block = 50 KiB of literal-free copies then new text */
         if (cls == 3) { p.windowLog = 17; W = B = blk = 128 * 1024; p.targetCBlockSize = 1340; p.maxBlockSize = 0; }
         else if (cls) { p.windowLog = 13; W = 8192; B = 8192; blk = 8192; p.targetCBlockSize = cls == 2 ? 1340 : 0; if (p.maxBlockSize) p.maxBlockSize = 0; }
-        int nb = cls ? 2 : 2 + vx_choose(2), ty[3]; for (int i = 0; i < nb; i++) ty[i] = (cls == 3 && i == 1) ? 8 : vx_choose(10);
+        int big128 = !vx_thorough && blk == 128 * 1024 && cls != 3;      /* quick tier: 128 KiB blocks with two blocks out of six characters */
+        static const int SUB6[] = {0, 1, 3, 4, 8, 9};
+        int nb = (cls || big128) ? 2 : 2 + vx_choose(2), ty[3]; for (int i = 0; i < nb; i++) ty[i] = (cls == 3 && i == 1) ? 8 : big128 ? SUB6[vx_choose(6)] : (i == 2 && !vx_thorough) ? SUB6[vx_choose(6)] : vx_choose(10);
         static const int D0[] = {0, -1, 1}; int d0 = D0[vx_deviate(3)]; int tailKind = vx_deviate(3);   /* first block exactly / one short / one over; last block full, half, 300 bytes */
         size_t pos = 0; uint32_t sd = 77;
         for (int i = 0; i < nb; i++) {
@@ -163,7 +166,7 @@ static void body(void) {
     else {
         fill_text(g_dict, sizeof g_dict, 21); dict = g_dict; dictLen = sizeof g_dict;
         /* dictionary identity: raw content (no ID) or a structured dictionary whose ID sits on either side of the 1 / 2 / 4-byte field boundaries */
-        {   static const unsigned IDS[] = {0, 255, 256, 65535, 65536}; static u8 sd[5][4096]; static size_t sl[5]; int idc = vx_choose(5);
+        {   static const unsigned IDS[] = {0, 255, 256, 65535, 65536}; static u8 sd[5][4096]; static size_t sl[5]; int idc = (entry == 5 || vx_thorough) ? vx_choose(5) : (vx_choose(2) ? 4 : 0);
             if (idc) { if (!sl[idc]) { static u8 smp[8192]; size_t ss[8]; fill_text(smp, sizeof smp, 33); for (int k = 0; k < 8; k++) ss[k] = 1024; ZDICT_params_t zp; memset(&zp, 0, sizeof zp); zp.dictID = IDS[idc]; zp.compressionLevel = 3;
                          size_t r = ZDICT_finalizeDictionary(sd[idc], sizeof sd[idc], g_dict, sizeof g_dict, smp, ss, 8, zp); sl[idc] = ZDICT_isError(r) ? 0 : r; }
                        if (sl[idc]) { dict = sd[idc]; dictLen = sl[idc]; wantID = IDS[idc]; } } }
